@@ -173,7 +173,7 @@ def cases(tier, seed, rng):
     # position tests, per-column getters of a data-frame dimension; answers predicted by NixModel/SizeVec.lean
     from checks import abuse_api
     api = abuse_api.cases(tier, seed + 1617, random.Random(seed * 7919 + 17))
-    return out + api + ab + wrong_class_reads(tier, seed) + memcheck_cases(tier, seed, ab)
+    return out + api + ab + wrong_class_reads(tier, seed) + frame_count_abuse(tier, seed) + memcheck_cases(tier, seed, ab)
 
 def wrong_class_reads(tier, seed):
     """reads and writes with a buffer of the wrong element class — strings asked of a numeric array and numbers of a string array —
@@ -200,6 +200,30 @@ def wrong_class_reads(tier, seed):
                 else: L.append('%s %s [%d] [0] %d' % (op if op.startswith('da_rd') else 'da_rd', rdt, cnt, cnt))
         c = Case(L, 'gen:wrong-class-reads'); c.meta['no_driver'] = True
         out.append(c)
+    return out
+
+def frame_count_abuse(tier, seed):
+    """column transfers of a data frame whose count is larger than the vector handed in (while offset + count stays within the rows),
+    whose offset or count lies outside the rows, with empty vectors — numeric and String columns, writes and reads: refused, never
+    served from beyond the vector"""
+    from vlib.runner import Case
+    rng = random.Random(seed * 92821 + 9)
+    out = []
+    for k in range(4 if tier == 'quick' else 40):
+        cols = ['%s:%s:%s' % (S('c%d' % i), S(''), t) for i, t in enumerate(rng.sample(['Double', 'Int32', 'String', 'Int64', 'Bool', 'UInt64'], 3))]
+        rows = rng.choice([8, 64, 600])
+        L = ['df_new ' + lst(cols), 'df_rows %d' % rows]
+        for i, c in enumerate(cols):
+            t = c.rsplit(':', 1)[1]
+            val = {'Double': f64(1.5), 'Int32': '7', 'String': S('some text that is longer than a small-string buffer'), 'Int64': '-9', 'Bool': '1', 'UInt64': '3'}[t]
+            for nvals, off, cnt in ((4, rows // 2, rows // 2), (1, 0, rows), (0, 0, 5), (3, rows - 2, 2), (3, rows - 2, 3), (2, rows + 5, 1), (4, 0, 2 ** 40), (4, 2 ** 63, 4)):
+                L.append('df_wcol i%d %s %s %d %d' % (i, t, lst([val] * nvals), off, cnt))
+            L.append('df_rcolc i%d %s 2 %d 0 0' % (i, t, rows))
+            L.append('df_rcolc i%d %s 2 5 0 %d' % (i, t, rows - 2))
+            L.append('df_rcol i%d %s 0 0 0' % (i, t))
+        L.append('df_rrow %d' % (rows - 1))
+        c_ = Case(L, 'gen:frame-count-abuse'); c_.meta['no_driver'] = True
+        out.append(c_)
     return out
 
 def memcheck_cases(tier, seed, ab):
